@@ -35,7 +35,7 @@ BASE_PROFILE: Dict[str, Any] = dict(
     p_nested_flag=0.3, p_same_inner_twice=0.0, p_p6=0.0, p_explicit_default=0.7,
     shape_bias=[("uniform", 3), ("recent", 2), ("early", 1), ("wide", 1)],
     p_setup_in_nested=0.0, main_flat=False, all_return=False, p_inner_const=0.0, w_concat=1.0, p_tag_is_id=0.0,
-    p_none_default=0.12, p_pass=0.1, swarm=("resources", "p_dep", "max_args"),
+    p_none_default=0.12, p_pass=0.1, p_many_args=0.01, swarm=("resources", "p_dep", "max_args"),
 )
 
 
@@ -297,6 +297,9 @@ class ProgramGen:
             cands = cands[:2]
         nargs = d.int(0, p["max_args"])
         args = [self.arg_expr(cands) for _ in range(nargs)]
+        if p["p_many_args"] and d.bool(p["p_many_args"]):
+            # many positional constants: argument holders are named "<k>th argument" (ordinal suffixes beyond 20)
+            args += [["c", str(i % 7)] for i in range(d.int(18, 26))]
         kwargs = []
         if d.bool(p["p_kwarg"]):
             kwargs.append(["k", self.arg_expr(cands)])
